@@ -81,6 +81,8 @@ func genAuthCfg(r *rand.Rand) vfCfg {
 }
 
 var vfHonestUsers = []string{"alice", "bob", "mallory"}
+var vfNetChoices = []string{"10.20.128.0/20", "192.0.2.0/24", "10.0.0.0/8", "172.16.5.4/30", "198.51.100.77/32", "0.0.0.0/1"}
+var vfPeerChoices = []string{"10.20.130.7", "10.20.144.1", "10.20.1.1", "192.0.2.10", "192.0.3.10", "10.9.9.9", "172.16.5.5", "172.16.5.8", "198.51.100.77", "198.51.100.78", "203.0.113.9", "2001:db8::1"}
 var vfSessNames = []string{"s1", "s2", "s3"}
 
 // genAuthPlan: focus is one of C01, C02, C03, C05
@@ -111,6 +113,10 @@ func genAuthPlan(r *rand.Rand, tier, focus string) *vfPlan {
 		n = 15 + r.IntN(35)
 	}
 	sessUser := map[string]string{}
+	mintShare := 0.25
+	if focus == "C01" {
+		mintShare = 0.6
+	}
 	anyTok := func() string {
 		if tokN == 0 {
 			return "tok1"
@@ -128,6 +134,20 @@ func genAuthPlan(r *rand.Rand, tier, focus string) *vfPlan {
 		u := sessUser[s]
 		x := r.IntN(100)
 		switch {
+		case (u == "" || x < 8) && chance(r, mintShare):
+			// a session carrying an arbitrary set of factor bits (authentic, minted by the server's own code)
+			nu := pick(r, vfHonestUsers)
+			bits := 0
+			for _, b := range []int{AuthTypePassword, AuthTypeFederated, AuthTypeU2F, AuthTypeSymantecVIP, AuthTypeIPCertificate, AuthTypeTOTP, AuthTypeOkta2FA, AuthTypeBootstrapOTP, AuthTypeKeymasterX509, AuthTypeWebauthForCLI, AuthTypeFIDO2} {
+				if chance(r, 0.25) {
+					bits |= b
+				}
+			}
+			if chance(r, 0.3) {
+				bits = pick(r, []int{AuthTypePassword, AuthTypePassword | AuthTypeBootstrapOTP, AuthTypePassword | AuthTypeTOTP, AuthTypeFederated, AuthTypeWebauthForCLI, AuthTypeKeymasterX509, AuthTypeFIDO2, AuthTypePassword | AuthTypeOkta2FA, 0})
+			}
+			add(vfStep{Op: "mintsession", Sess: s, User: nu, N: int64(bits), D: pick(r, []string{"16h", "16h", "1h", "10m", "45s", "15h"})})
+			sessUser[s] = nu
 		case u == "" || x < 8:
 			nu := pick(r, vfHonestUsers)
 			via := pick(r, []string{"form", "form", "basic", "html"})
@@ -235,13 +255,43 @@ func genAuthPlan(r *rand.Rand, tier, focus string) *vfPlan {
 				st.C = "cert:last:usercert:" + u
 			case c == 5:
 				st.C = "cert:last:usercert"
+			case c == 6 || c == 7:
+				st.C = "cert:last:ipcert"
+				st.User = pick(r, []string{"auto1", "auto1", "auto2", u})
+				st.Target = pick(r, vfPeerChoices)
 			}
 			add(st)
+		case x < 78 && p.Cfg.CliTokenLife != "":
+			// CLI web-auth token flow: show in the browser session, hand over to a CLI session
+			add(vfStep{Op: "clishow", Sess: s})
+			if chance(r, 0.8) {
+				from := s
+				if chance(r, 0.25) {
+					from = pick(r, vfSessNames)
+				}
+				add(vfStep{Op: "clisend", Sess: from, A: "last:clitoken", Target: pick(r, vfSessNames)})
+			}
+		case x < 80 && focus != "C03":
+			// a user obtains a keymaster client certificate; some session then presents it (possibly
+			// a session of ANOTHER user: certificate and cookie disagree) on its following requests
+			cu := pick(r, vfHonestUsers)
+			add(vfStep{Op: "mintsession", Sess: "cs", User: cu, N: int64(AuthTypeU2F | AuthTypePassword)})
+			add(vfStep{Op: "certgen", Sess: "cs", User: cu, A: "x509", B: pick(r, []string{"user_p256_1", "user_rsa2048_2"}), D: "8h"})
+			if chance(r, 0.8) {
+				add(vfStep{Op: "attachcert", Sess: pick(r, vfSessNames), C: "last:usercert:" + cu})
+			}
+		case x < 81:
+			// an automation certificate minted by an administrator, later used as a credential
+			add(vfStep{Op: "mintsession", Sess: "adm", User: pick(r, []string{"root", "autoadmin"}), N: int64(AuthTypeU2F | AuthTypePassword)})
+			add(vfStep{Op: "rolecert", Sess: "adm", A: pick(r, []string{"auto1", "auto2"}), L: []string{pick(r, vfNetChoices)}, B: pick(r, []string{"user_p256_3", "user_rsa2048_4"})})
 		case x < 90:
 			add(vfStep{Op: "advance", D: pick(r, advances)})
 		case x < 93:
 			add(vfStep{Op: "logout", Sess: s})
 			sessUser[s] = ""
+			if chance(r, 0.5) {
+				add(vfStep{Op: "attachcert", Sess: s})
+			}
 		case x < 96:
 			add(vfStep{Op: pick(r, []string{"stall", "heal"})})
 		default:
